@@ -101,6 +101,7 @@ P = {
         "a logical request is well-formed (wf_lreqb, checked on every case): header names are tokens, no Host/X-Forwarded-*/Forwarded "
         "line, values without surrounding blanks, at most one Cookie line, path starts with '/' and is validly percent-encoded",
         "Envoy delivers the request as mk_envoy says (see trusted); real Envoy's pseudo headers and query-in-path are out of scope",
+        "hosts are plain host[:port] values that url.URL.String() does not escape (the model of String() writes the host as it is)",
         "pipeline header names are disjoint from the request's header names and pipeline cookie names from the request's cookie names "
         "(overriding client headers is C15); pipeline header name Host is not generated",
         "header and cookie finalizer templates are never empty (an empty template string is a nil template: panic in Render, recovered "
